@@ -17,10 +17,18 @@
        been stamped with a time inside the window the harness measured around the run;
      - the counters;
      - the buffer bytes.
-   The strconv.ParseFloat oracle table is computed by the harness from strconv directly. *)
+   The strconv.ParseFloat oracle table is computed by the harness from strconv directly.
+
+   Second kind of case ([LexSeq]): ONE real lexer (with its own metric pool) is handed line after
+   line; metrics are given back to the pool with stale values written into every field.  The
+   stateful model [LexState.run_line] is run in lock-step from the zero Lexer and its
+   (metric, event, error) triple compared each time, every field of the returned Metric included
+   (TagsKey, Source, Timestamp must be clean).  As handleDatagram does, the comparison looks at the
+   error first, then at the metric if there is one (an event returned next to a metric is ignored:
+   C05_reset_e_not_needed), else at the event. *)
 From stdpp Require Import gmap.
 From Coq Require Import QArith Qabs.
-From GS Require Export Corr.MMLib Model.Datagram Model.LexMem.
+From GS Require Export Corr.MMLib Model.Datagram Model.LexMem Model.LexState.
 
 Definition oracle (t : list (str * pfres)) (s : str) : pfres :=
   match assoc_str s t with Some r => r | None => PFMiss end.
@@ -35,13 +43,16 @@ Record obs_batch := OB {
   ob_ctr : counters
 }.
 
-Record c05case := C05 {
-  c_ns : str;
-  c_ignore : bool;
-  c_table : list (str * pfres);
-  c_lo : Z; c_hi : Z;                                   (* wall-clock window, Unix seconds *)
-  c_batches : list (list (datagram * obs_dg) * obs_batch)
-}.
+(* one Lexer.Run on the reused lexer: namespace, what the pool is believed to hand out (the model's
+   result provably does not depend on it), the line, and the (metric, event, error) triple observed *)
+Inductive sobs := SO (m : option pmetric) (e : option event) (err : bool) | SOPanic.
+Record lexstep := LStep { st_ns : str; st_pool : option pmetric; st_line : str; st_obs : sobs }.
+
+Inductive c05case :=
+| C05 (c_ns : str) (c_ignore : bool) (c_table : list (str * pfres))
+      (c_lo c_hi : Z)                                   (* wall-clock window, Unix seconds *)
+      (c_batches : list (list (datagram * obs_dg) * obs_batch))
+| LexSeq (q_table : list (str * pfres)) (q_steps : list lexstep).   (* ONE real lexer, line after line *)
 
 (* ---- maps *)
 Definition two64z : Z := 18446744073709551616.
@@ -111,8 +122,40 @@ Fixpoint check_batches (t : list (str * pfres)) (cfg : config) (lo hi : Z) (acc 
       end
   end.
 
+(* ---- the reused lexer, in lock-step with the stateful model *)
+Definition pmetric_eqb (a b : pmetric) : bool :=
+  str_eqb (pm_name a) (pm_name b) && (pm_value a =? pm_value b)%Z && (pm_rate a =? pm_rate b)%Z
+  && strs_eqb (pm_tags a) (pm_tags b) && str_eqb (pm_tagskey a) (pm_tagskey b)
+  && str_eqb (pm_strval a) (pm_strval b) && str_eqb (pm_src a) (pm_src b) && (pm_ts a =? pm_ts b)%Z
+  && option_eqb mtype_eqb (pm_type a) (pm_type b).
+Definition event_eqb (o m : event) : bool :=
+  str_eqb (e_title o) (e_title m) && str_eqb (e_text o) (e_text m) && (e_date o =? e_date m)%Z
+  && str_eqb (e_host o) (e_host m) && str_eqb (e_key o) (e_key m) && (e_pri o =? e_pri m)%N
+  && str_eqb (e_stype o) (e_stype m) && (e_alert o =? e_alert m)%N && strs_eqb (e_tags o) (e_tags m).
+
+Definition sobs_ok (o : sobs) (r : run_result) : bool :=
+  match o, r with
+  | SO None None true, RR None None (Some EOracleMiss) => false
+  | SO None None true, RR None None (Some _) => true
+  | SO (Some om) _ false, RR (Some m) _ None => pmetric_eqb om m   (* the parser looks at the metric only *)
+  | SO None oe false, RR None e None => option_eqb event_eqb oe e
+  | SOPanic, RPanic => true
+  | _, _ => false
+  end.
+
+Fixpoint check_steps (t : list (str * pfres)) (st : lexstate) (steps : list lexstep) : bool :=
+  match steps with
+  | [] => true
+  | x :: r =>
+      let '(st', res) := run_line (oracle t) (st_ns x) (st_pool x) st (st_line x) in
+      sobs_ok (st_obs x) res && check_steps t st' r
+  end.
+
 Definition check_case (c : c05case) : bool :=
-  check_batches (c_table c) (Cfg (c_ns c) (c_ignore c)) (c_lo c) (c_hi c) (Ctr 0 0 0) (c_batches c).
+  match c with
+  | C05 ns ignore table lo hi batches => check_batches table (Cfg ns ignore) lo hi (Ctr 0 0 0) batches
+  | LexSeq table steps => check_steps table zero_state steps
+  end.
 
 (* what the model computed, for failing cases *)
 Record explained := XB {
@@ -121,17 +164,23 @@ Record explained := XB {
   x_ctr : counters;
   x_buffers : list (option str)
 }.
+Inductive c05explain := XBatches (l : list (option explained)) | XSeq (l : list run_result).
 
-Definition explain_case (c : c05case) : list (option explained) :=
-  let cfg := Cfg (c_ns c) (c_ignore c) in
-  map (fun '(dgs, _) =>
-         match run_batch (oracle (c_table c)) cfg (map fst dgs) with
+Definition explain_case (c : c05case) : c05explain :=
+  match c with
+  | C05 ns ignore table lo hi batches =>
+      let cfg := Cfg ns ignore in
+      XBatches (map (fun '(dgs, _) =>
+         match run_batch (oracle table) cfg (map fst dgs) with
          | None => None
          | Some br =>
              Some (XB (option_map entries (b_map br)) (b_events br) (b_ctr br)
                       (map (fun '(d, o) =>
                               let n := N.of_nat (length (d_msg d)) in
                               let m := d_msg d ++ od_slack o in
-                              match parse_buffer (oracle (c_table c)) (c_ns c) m (Sl 0 n (N.of_nat (length m))) with
+                              match parse_buffer (oracle table) ns m (Sl 0 n (N.of_nat (length m))) with
                               | PMOk _ m' => Some m' | _ => None end) dgs))
-         end) (c_batches c).
+         end) batches)
+  | LexSeq table steps =>
+      XSeq (run_lines (oracle table) zero_state (map (fun x => (st_ns x, st_pool x, st_line x)) steps))
+  end.
